@@ -19,7 +19,7 @@ N    == Len(Obs)
 
 Fn(pairs) == [f \in {pairs[k][1] : k \in 1..Len(pairs)} |-> pairs[CHOOSE k \in 1..Len(pairs) : pairs[k][1] = f][2]]
 ToSc(j) == [multifile |-> j.multifile, overwrite |-> j.overwrite, subs |-> j.subs, invalid |-> j.invalid, unser |-> j.unser,
-            fault |-> [kind |-> j.fault[1], n |-> j.fault[2]], pre |-> Fn(j.pre)]
+            fault |-> [kind |-> j.fault[1], n |-> j.fault[2]], pre |-> Fn(j.pre), inplace |-> j.inplace]
 
 VARIABLE i
 Init == i \in 1..N
@@ -45,7 +45,7 @@ Check(k) ==
      /\ (AllOrNothing(sc, o.out, o.fired, fin) /\ ((o.out = "raise" /\ MustBeAtomic(sc, o.fired)) => o.extra = << >>))
           \/ Say(k, IF same /\ dev \in KnownAtomicityDevs /\ o.extra = << >> THEN "ref-aon-as:" \o dev \o ":" \o r.cause ELSE "ref-aon-other")
      /\ (o.out = "ok" => o.reparses)
-          \/ Say(k, IF same /\ dev = "multi-name-collision" THEN "ref-reparse-as:" \o dev ELSE "ref-reparse-other")
+          \/ Say(k, IF same /\ dev \in {"multi-name-collision", "inplace-content-emptied"} THEN "ref-reparse-as:" \o dev ELSE "ref-reparse-other")
      \* the model's own reading of "reparses" (file contents identified by the harness) agrees with the real re-parse
      /\ (o.out = "ok" => (Reparses(sc, fin) <=> o.reparses)) \/ Say(k, "alg-reparse-model")
      \* ---- Alg: same outcome, same final directory, same order of effects
